@@ -48,6 +48,20 @@ MUTS += [
  ('refusal_changes_warned_flag','PK/Model/Machine.lean',"def raise (m : M) (e : Err) : M := { m with ctl := [], err := some e }","def raise (m : M) (e : Err) : M := { m with ctl := [], err := some e, warned := true }"),
  ('collect_keeps_flag','PK/Model/Machine.lean',"  let s1 := { s with betCollection := false }","  let s1 := s"),
 ]
+
+MUTS += [
+ # --- third batch: the betting queue (what C03Round speaks about) and the F25 / F26 / F28 models
+ ('call_does_not_leave_queue','PK/Model/Machine.lean',"        let s := { s with\n          actors := actors, acted := insNat p s.acted\n          bets := s.bets.set p (getI s.bets p + amount)","        let s := { s with\n          actors := p :: actors, acted := insNat p s.acted\n          bets := s.bets.set p (getI s.bets p + amount)"),
+ ('raise_keeps_raiser_in_queue','PK/Model/Machine.lean',"        let actors := ((rotatedRange n p).drop 1).filter fun i =>","        let actors := (rotatedRange n p).filter fun i =>"),
+ ('raise_queue_keeps_all_in_players','PK/Model/Machine.lean',"        let actors := ((rotatedRange n p).drop 1).filter fun i =>\n          getB s.statuses i && getI s.stacks i != 0","        let actors := ((rotatedRange n p).drop 1).filter fun i =>\n          getB s.statuses i"),
+ ('round_start_keeps_covered_players','PK/Model/Machine.lean',"            | .ok eff => if eff == 0 then (actors.erase i, none) else (actors, none))","            | .ok eff => (actors, none))"),
+ ('round_ends_with_one_to_act','PK/Model/Machine.lean',"    if s.actors.isEmpty || s.liveCount ≤ 1 || status then m.cont s [.endBet] rest","    if s.actors.length ≤ 1 || s.liveCount ≤ 1 || status then m.cont s [.endBet] rest"),
+ ('fold_does_not_leave_queue','PK/Model/Machine.lean',"        let s := { s with actors := actors, acted := insNat p s.acted }\n        if getI s.stacks p == 0 then { m with st := s, ctl := [], err := some .assertionError }","        let s := { s with actors := p :: actors, acted := insNat p s.acted }\n        if getI s.stacks p == 0 then { m with st := s, ctl := [], err := some .assertionError }"),
+ ('lone_actor_flag_strict','PK/Model/Machine.lean',"          | [a] => getI s.bets a ≥ maxI s.bets","          | [a] => getI s.bets a > maxI s.bets"),
+ ('hand_accepts_unknown_suits','PK/Model/Hand.lean',"    if !cs.all Card.known then .error .valueError","    if false then .error .valueError"),
+ ('icm_orders_as_long_as_payouts','PK/Model/Analysis.lean',"  let orders := permsK (min payouts.length chips.length) (List.range chips.length)","  let orders := permsK payouts.length (List.range chips.length)"),
+ ('min_raise_below_largest_bet','PK/Model/State.lean',"      let amount := if !s.completionStatus then amount + maxI s.bets else amount","      let amount := amount"),
+]
 only=sys.argv[1:] 
 res=[]
 for name, f, old, new in MUTS:
